@@ -219,6 +219,25 @@ pub fn run_check(property: &str, tier: &str) -> i32 {
         reported += 1;
     }
 
+    // ---- C11 only: the frame must also hold when a file-system call of the deleting request fails
+    let mut frame_faults: Option<super::faults::FaultSummary> = None;
+    if property == "C11" {
+        let (fs, reps) = super::faults::run_frame_faults(tier);
+        for (min, path) in &reps {
+            if let Some(f) = known.matches(property, &min.signature) {
+                println!("KNOWN-FINDING: property={property} {}", f.description);
+                continue;
+            }
+            println!("violation: signature={} k={} errno={} ({} -> {} ops)", min.signature, min.k, min.errno_name, min.minimised_from_steps, min.history.ops.len());
+            for l in &min.detail {
+                println!("    {l}");
+            }
+            println!("VIOLATION property={property} replay={}", path.display());
+            reported += 1;
+        }
+        frame_faults = Some(fs);
+    }
+
     // ---- evidence
     let wall = started.elapsed().as_secs_f64();
     let mut ev = Evidence::new(property, tier, seed, "exploration");
@@ -262,6 +281,14 @@ pub fn run_check(property: &str, tier: &str) -> i32 {
         "components",
         json!({"real": crate::evidence::REAL_COMPONENTS, "stub": "CNB lifecycle restorer, buildpack author callbacks (scripted)"}),
     );
+    if let Some(fs) = &frame_faults {
+        ev.cov(
+            "frame_under_faults",
+            json!({"deleting_requests_enumerated": fs.pairs, "faulted_executions": fs.executions, "faults_fired": fs.fired,
+                   "by_libc_call": fs.fired_by_call, "by_errno": fs.fired_by_errno,
+                   "rule": "for sampled hostile histories the last deleting request is re-executed with every k-th file-system call failing (x EIO, EACCES, ENOSPC); whatever it returns, everything outside the layer must be untouched"}),
+        );
+    }
     ev.cov("design_ref", json!(c.design_ref));
     ev.cov("known_findings_seen", json!(known_hits));
     ev.assumptions = c.assumptions.iter().map(|s| (*s).to_string()).collect();
